@@ -36,7 +36,8 @@ RULE = ("enc: all (ER, priority, DADR shape{none, station mac 1/2/6/7/255, remot
         "(thorough); messages: network lists of length 0..20 and 100..1000, tables 0..5 x port-info "
         "0..255 and 255/256 entries; all message bodies of length <=2 for each of the 12 classes; "
         "mutated valid frames.  distinct = distinct (stream, header class) signatures: control bits, "
-        "address kinds, MAC-length class, message class / error kind and length bucket")
+        "address kinds, MAC-length class, message class / error kind and length bucket"
+        "; history: multi-step histories in one process (refused encode/decode then valid ones, the same NPDU / message object re-used and encoded twice, aliasing of produced PDUs), each step judged like a single operation")
 TRUSTED = ["lean/BacVerif/Model/Npci.lean is a hand transcription of npdu.py (NPCI/NPDU encode/decode, the "
            "12 message classes); tied by the enc/dec/menc/mdec/bdec correspondence streams",
            "translator/registries.py (npdu_types -> Gen/NpduTypes.lean)",
